@@ -85,9 +85,12 @@ CHECKS.update({
     "C11": mixed("contract obligations: log_partition_function / integrate of every exp-family layer return (F, 1, K) with the right value for all "
                  "F, K (no accidental broadcast when batch == folds); forward kernels per fold and batch row; IntegrateQuery (mask construction, per-sample "
                  "selection, rejection of out-of-scope variables) only by the bounded stand-in vs brute-force marginals in the three input formats"),
-    "C12": mixed("contract obligations: mixing_weight_factory shape arithmetic; kernels of the normalising nodes (softmax / log-softmax / sigmoid on the "
-                 "declared axis, mixing-weight expansion per fold); that every template's sum layers receive normalised weights and Z = 1 before / after "
-                 "updates is a bounded stand-in over template arguments and three parameter states",
+    "C12": mixed("contract obligations: RegionGraph.build_circuit on two region-graph templates x {cp, cp-t, tucker}: EVERY sum layer takes its weight from "
+                 "the caller's normalising factory (softmax on the last axis of an unconstrained tensor of the sum's own weight shape; n-ary mixing sums from "
+                 "the n-ary factory = mixing_weight_factory over a softmax on the arity axis), input layers are the caller's, the circuit is smooth, "
+                 "decomposable, has num_classes output units; mixing_weight_factory shape arithmetic; kernels of the normalising nodes (softmax / log-softmax / "
+                 "sigmoid on the declared axis, mixing-weight expansion per fold); Z = 1 for all parameter values then follows from the stated lemma (L-norm), "
+                 "which is prose; Z = 1 before / after updates on every algorithm's graphs and the other templates is a bounded stand-in",
                  "; 'finite in log space' is a floating point statement checked only on the sampled inputs"),
     "C16": mixed("contract obligations on region-graph templates with symbolic, possibly coinciding ids: RegionGraph(...) returning normally implies "
                  "validity (children of a partition pairwise disjoint and covering it, partitions of a region share its scope, one parent per partition), empty "
@@ -95,11 +98,15 @@ CHECKS.update({
                  "is_omni_compatible iff all child regions univariate; the algorithms (numpy / random / image grids / Chow-Liu), dump / load and build_circuit "
                  "are covered by the bounded stand-in only (every algorithm over small argument spaces, independent validator, round trip, three abstractions "
                  "and explicit factories)"),
-    "C15": ("other", "structural clauses (shape, columns filled from the variable's input layer, support) and the distributional clause are a "
-            "BOUNDED, seeded statistical stand-in: 20000 samples per circuit against exact probabilities with 6.5-sigma cell thresholds; no contract "
-            "within reach decides convergence of empirical frequencies; one recorded known finding (optimized Tucker layers refuse to sample)",
-            BOUNDED_NOTE + "; torch's random number generator and Categorical sampler are trusted; the statistical threshold admits a false alarm "
-            "probability < 1e-8 per run and is deterministic for a fixed VERIF_SEED", "bounded seeded statistical check against exact probabilities", "4/C15"),
+    "C15": ("other", "contract obligations on the STRUCTURAL clauses: TorchSumLayer.sample returns, per fold / output unit / sample, the sample of the "
+            "component drawn from Categorical(weight) over the same axis h*Ki+i the forward pass weights (and refuses unnormalised weights), Hadamard / "
+            "Kronecker (arity 2, 3) samples add the inputs' assignments in the layers' unit order, _pad_samples fills the column of the layer's own variable "
+            "(non-contiguous ids) and no other, no sampling method updates a possibly aliased tensor in place - for all F, K, N, D; the DISTRIBUTIONAL clause "
+            "(frequencies converge) is statistical: a BOUNDED seeded stand-in (20000 samples per circuit vs exact probabilities, 6.5-sigma cell thresholds), "
+            "no contract within reach decides it; one recorded known finding (optimized Tucker layers refuse to sample)",
+            PROOF_NOTE + " || " + BOUNDED_NOTE + "; torch's random number generator and Categorical sampler are trusted (assumed contract: draws lie in the support); "
+            "the statistical threshold admits a false alarm probability < 1e-8 per run and is deterministic for a fixed VERIF_SEED",
+            "contract obligations (z3) on the sampling layout + bounded seeded statistical check against exact probabilities", "4/C15"),
     "C17": mixed("contract obligation: tensor parameters folded into one storage agree on shape, requires_grad and dtype (fold_settings 2-safety); "
                  "initialiser rules / fold-wise initialisation (values of every registry slice after compile and resets vs its own initialiser, also when "
                  "folded with differently initialised parameters) are a bounded stand-in"),
